@@ -261,6 +261,8 @@ class ChildSeams:
         self.o: dict[str, object] = {}
         self.nevents = 0
         self.last = None  # natural outcome (0 / errno) of the real call made after the previous event
+        self.points = False  # install_call_points: an `after` event follows every successful creating / removing call
+        self.cur = None
 
     def call(self, fn, *a, **kw):
         try:
@@ -269,12 +271,23 @@ class ChildSeams:
             self.last = e.errno or -1
             raise
         self.last = 0
+        if self.points and self.cur is not None and self.cur[0] in ("create", "mkdir", "open-w", "unlink", "rmdir", "rename"):
+            # the system call has returned; this is where a signal that arrived meanwhile is acted upon
+            op, path = self.cur
+            self.cur = None
+            try:
+                self.ask("after", path, of=op)
+            except BaseException:
+                if op in ("create", "open-w") and isinstance(res, int):
+                    pass  # the descriptor is lost with the discarded result, as in the real interpreter
+                raise
         return res
 
     # ------------------------------------------------------------ protocol
     def ask(self, op, path, on_err=None, **kw):
         msg = {"p": self.proc, "op": op, "path": path, "r": self.last}
         self.last = None
+        self.cur = (op, path)
         if kw:
             msg.update(kw)
         self.nevents += 1
@@ -593,3 +606,57 @@ def install_datetime_seam(clock_fn):
                 setattr(mod, an, SimDatetime)
                 n += 1
     return n
+
+
+POINT_TOOL_ID = 4
+
+
+def install_call_points(S, module) -> int:
+    """Asynchronous-exception points inside one module (plan.py), at the places where CPython really runs a
+    pending signal handler: after a call into C returns (C_RETURN: the call has happened, its result is not yet
+    stored) and on function entry (PY_START = RESUME).  Each is a seam event `point`; an exception raised by the
+    callback (the KeyboardInterrupt of the default SIGINT handler) surfaces at that very instruction, exactly as it
+    does when the interpreter runs the handler there.  (Source lines would be the wrong grain: the `try:` of a
+    nested block is a NOP outside every exception-table range, where no handler ever runs.)  The companion of
+    this hook is S.points: a seam event `after` following every successful creating / removing file-system call."""
+    import gc
+    import types
+
+    mon = sys.monitoring
+    fn = module.__file__
+    codes: list = []
+
+    def add(c):
+        if c in codes:
+            return
+        codes.append(c)
+        for k in c.co_consts:
+            if isinstance(k, types.CodeType):
+                add(k)
+
+    for o in gc.get_objects():
+        if isinstance(o, types.FunctionType) and o.__code__.co_filename == fn:
+            add(o.__code__)
+    base = os.path.basename(fn)
+
+    def line_of(code, off):
+        ln = code.co_firstlineno
+        for a, b, l in code.co_lines():
+            if a <= off < b and l is not None:
+                return l
+        return ln
+
+    def on_c_return(code, off, callable_, arg0):
+        name = getattr(callable_, "__qualname__", None) or getattr(callable_, "__name__", None) or type(callable_).__name__
+        S.ask("point", "<%s:%s:%d>" % (base, code.co_name, line_of(code, off)), callee=str(name)[:60])
+
+    def on_py_start(code, off):
+        S.ask("point", "<%s:%s:%d>" % (base, code.co_name, code.co_firstlineno), callee="<entry>")
+
+    mon.use_tool_id(POINT_TOOL_ID, "simplan-points")
+    mon.register_callback(POINT_TOOL_ID, mon.events.C_RETURN, on_c_return)
+    mon.register_callback(POINT_TOOL_ID, mon.events.PY_START, on_py_start)
+    for c in codes:
+        mon.set_local_events(POINT_TOOL_ID, c, mon.events.CALL | mon.events.PY_START)
+    S.points = True
+    return len(codes)
